@@ -45,6 +45,28 @@ def pipeLoop (apiHz : Nat) : Opus.SilkPipe.PipeSt → Nat → List Bytes → Lis
     | .ok (S', pcm) => pipeLoop apiHz S' (k + 1) ps (intList pcm :: acc)
     | r => "PCM " ++ ";".intercalate (s!"ERR@{k}:{resStr (fun _ => "OK") r}" :: acc).reverse
 
+/-- Diagnostic (op `pipe-why`, not compared): why the first packet outside the class is outside. -/
+def whyFrames (S : Opus.SilkPipe.PipeSt) : List Opus.SilkSyms.FrameRes → String
+  | [] => "inside"
+  | .plc :: _ => "frame-of-at-most-1-byte(PLC/DTX)"
+  | .celt _ _ :: _ => "celt-frame"
+  | .silk _ o :: rest =>
+    if o.redundancy ≠ 0 then s!"redundancy-frame(celt_to_silk={o.celtToSilk},bytes={o.redundancyBytes})"
+    else if o.nCh ≠ 1 then "stereo"
+    else if o.internalRate ≠ S.dec.fsKHz * 1000 then s!"internal-rate-change({S.dec.fsKHz}kHz->{o.internalRate})"
+    else whyFrames S rest
+
+def pipeWhyLoop (apiHz : Nat) : Opus.SilkPipe.PipeSt → Nat → List Bytes → String
+  | _, _, [] => "all-inside"
+  | S, k, p :: ps =>
+    match Opus.SilkPipe.silkOnlyDecode apiHz S p with
+    | .ok (S', _) => pipeWhyLoop apiHz S' (k + 1) ps
+    | _ =>
+      if !Opus.SilkPipe.silkOnlyMono p then s!"packet {k}: TOC not SILK-only mono"
+      else match Opus.SilkSyms.decodePacket apiHz false false S.syms p with
+        | .ok (some frs) => s!"packet {k}: {whyFrames S frs}"
+        | _ => s!"packet {k}: rejected by the parser"
+
 def pipeStream (args : List String) : String :=
   match args with
   | fs :: api :: pkts =>
@@ -75,6 +97,13 @@ def handle (args : List String) : String :=
     | some (s, f) => resStr (fun (o : FrameOut) => s!"ub={o.core.ub}") (frameGood s f)
     | none => "bad-op"
   | "pipe-stream" :: a => pipeStream a
+  | "pipe-why" :: fs :: api :: pkts =>
+    match parseNat fs, parseNat api, pkts.mapM parseHex with
+    | some fs, some api, some pk =>
+      match Opus.SilkPipe.initPipe fs api with
+      | .ok S => pipeWhyLoop api S 0 pk
+      | _ => "bad-op"
+    | _, _, _ => "bad-op"
   | _ => "bad-op"
 
 end Driver.SuiteSilkCore
